@@ -89,7 +89,7 @@ def build_driver():
     if _newer([ext_vo, ext_v], ml):
         sh("coqc -Q %s HV %s -o %s/Extract.vo" % (COQ, ext_v, OCAML_BUILD), cwd=OCAML_BUILD)
     if _newer([ml, drv_src], DRIVER):
-        sh("cp %s driver.ml && ocamlfind ocamlopt -O2 -package zarith -linkpkg -w -a model.mli model.ml driver.ml -o driver"
+        sh("cp %s driver.ml && ocamlfind ocamlopt -O2 -package zarith,unix -linkpkg -w -a model.mli model.ml driver.ml -o driver"
            % drv_src, cwd=OCAML_BUILD)
 
 
@@ -168,6 +168,12 @@ def run_sharded(exe, lines, timeout=1200, shards=None):
 
 def run_model(lines, timeout=6000):
     return run_sharded(DRIVER, lines, timeout)
+
+
+def timed_out(*answers):
+    """an evaluator gave up on the case within its per-case time limit (values that double in size with every round of a loop
+    cannot be computed to the step budget by the model or by the code): the case is skipped"""
+    return any(a == "timeout" or a.endswith("END:timeout") or a.startswith("child:timeout") for a in answers if isinstance(a, str))
 
 
 def run_impl(lines, timeout=3000, release=False):
